@@ -238,6 +238,7 @@ pub fn c12_main(tier: Tier) -> i32 {
                 "alphabet": fsm::EVENTS,
                 "unmerged_histories": rr.evals,
                 "unmerged_depth": if tier == Tier::Quick { 5 } else { 6 },
+                "unmerged_blocks": fsm::C12Histories::blocks_for(tier).iter().map(|(p, d)| json!({"prefix": p.iter().map(|e| fsm::EVENTS[*e as usize]).collect::<Vec<_>>(), "suffix_depth": d})).collect::<Vec<_>>(),
                 "histories_in_which_input_window_opened": rr.nontrivial,
                 "states_accepting_input": accepting,
                 "states_refusing_input": refusing,
